@@ -247,6 +247,14 @@ PATHO = {
     "scheme-run*n": lambda n: "a" * n + "!",
     "idn-label*n": lambda n: "http://" + "\u00fc" * n + ".de",
 }
+# repeated unit x tail x prefix: a long run that the parser must abandon at the very end (the shape of
+# regex backtracking blow-ups: CVE-2021-33503 is "@"*n followed by something that is not a host)
+_UNITS = ["@", "a@", "a:b@", ":", "a:", ".", "a.", "1.", "%", "%2", "%41", "[", "]", "1", "0", "/", "\\", "?", "a"]
+_TAILS = ["[", ":x", "]", "@", "\n", "\\", "%zz", "host:x", " ", ":65536"]
+for _pre in ("http://", "https://", ""):
+    for _u in _UNITS:
+        for _t in _TAILS:
+            PATHO[f"{_pre}({_u})*n{_t}"] = (lambda n, _pre=_pre, _u=_u, _t=_t: _pre + _u * n + _t)
 
 
 class C14(Prop):
@@ -700,8 +708,14 @@ class C14(Prop):
                 sig = "host:not-idempotent:zone-25-prefix" if (h or "").startswith("[") and z.startswith("25") and z.rstrip("\n") != "25]" else "host:not-idempotent"
                 fail(sig, f"_normalize_host twice on {s!r} ({sc!r}): {h!r} then {h2!r}")
         elif op == "hostport":
+            hp_re = getattr(U, "_HOST_PORT_RE", None)
+            if hp_re is None:
+                # the regex was refactored away: this component pin no longer applies (parse_url as a
+                # whole is still compared with the model); the fact extractor reports the changed pin
+                res.bump("skipped:hostport-regex-missing")
+                return [], []
             lines.append("hostport " + enc(s))
-            m = U._HOST_PORT_RE.match(s)
+            m = hp_re.match(s)
             if m is None:
                 out.append("nomatch")
             else:
@@ -727,7 +741,8 @@ class C14(Prop):
             s = gen(n)
             best = None
             for _ in range(2):
-                t0 = time.perf_counter()
+                # CPU time of this thread: a loaded machine must not look like a slow parser
+                t0 = time.thread_time()
                 try:
                     parse_url(s)
                 except LocationParseError:
@@ -735,8 +750,10 @@ class C14(Prop):
                 except Exception as e:
                     res.failures.append(Failure(signature="unexpected-exception:" + type(e).__name__,
                                                 what=f"parse_url(<{pat} n={n}>) raised {type(e).__name__}", case=case))
-                dt = time.perf_counter() - t0
+                dt = time.thread_time() - t0
                 best = dt if best is None else min(best, dt)
+                if dt > 4 * (1.0 + 50e-6 * len(s)):
+                    break       # hopeless: do not measure twice
             ts[n] = best
             # measurement, reported in the histogram: microseconds per character, bucketed
             us = best * 1e6 / max(len(s), 1)
@@ -747,6 +764,7 @@ class C14(Prop):
                 res.failures.append(Failure(signature="superlinear-time:" + pat,
                                             what=f"parse_url on {pat} with n={n} ({len(s)} chars) took {best:.2f}s "
                                                  f"(> 1 s + 50 µs/char)", case=case))
+                break           # a larger n would only take longer
         res.bump("timing:patterns")
         return [], []
 
